@@ -212,4 +212,8 @@ def run(ctx):
     rules.append(rule_narrow_units(ctx, m, ["Digit.hpp", "DigitUtils.hpp", "QNumber.hpp"]))
     from rules.common import rule_case_pairs
     rules.append(rule_case_pairs(ctx, m))
+    from rules.common import rule_exponent_marker
+    rules.append(rule_exponent_marker(ctx, m))
+    from rules.common import rule_accumulate
+    rules.append(rule_accumulate(ctx, m))
     return rules
